@@ -168,6 +168,34 @@ func RunC19(c *Ctx) {
 				buf := dst[:0:len(content)]
 				return func() error { _, _, e := rjson.UnescapeStringContent(content, buf); return e }, true
 			}},
+			// destination and input in ONE buffer (unescape in place; compacting a record inside its
+			// buffer): the destination's spare capacity is exactly the input, which is "at least the
+			// input length" (seeded change C19r5-m2: a defensive copy when the write position equals
+			// the start of the input). The content is restored before every call.
+			{"UnescapeStringContent(in place, dst = data[:0])", func(d []byte) (func() error, bool) {
+				p0 := refmodel.SkipWS(d, 0)
+				_, end, ok := refmodel.ScanString(d, p0)
+				if !ok {
+					return nil, false
+				}
+				orig := d[p0+1 : end-1]
+				work := make([]byte, len(orig))
+				return func() error { copy(work, orig); _, _, e := rjson.UnescapeStringContent(work, work[:0]); return e }, true
+			}},
+			{"UnescapeStringContent(in place, dst = buf[:3], data = buf[3:])", func(d []byte) (func() error, bool) {
+				p0 := refmodel.SkipWS(d, 0)
+				_, end, ok := refmodel.ScanString(d, p0)
+				if !ok {
+					return nil, false
+				}
+				orig := d[p0+1 : end-1]
+				work := make([]byte, 3+len(orig))
+				return func() error {
+					copy(work[3:], orig)
+					_, _, e := rjson.UnescapeStringContent(work[3:], work[:3])
+					return e
+				}, true
+			}},
 		},
 	}
 	measure := func(group string, cs *h.Case) {
